@@ -197,21 +197,24 @@ func (cp *connPair) send(toServer bool, n int, data []byte, fin bool) {
 		return
 	}
 	w.Post(at, key, func() {
+		// observers see the bytes before the reader is woken (the reader may finish
+		// the whole operation before this goroutine runs again)
 		p.mu.Lock()
-		delivered := false
+		deliverable := p.err == nil && !p.rclosed && !fin
+		p.mu.Unlock()
+		if deliverable && w.OnDeliver != nil {
+			w.OnDeliver(cp.client, toServer, n, data)
+		}
+		p.mu.Lock()
 		if p.err == nil && !p.rclosed {
 			if fin {
 				p.eof = true
 			} else {
 				p.buf = append(p.buf, data...)
-				delivered = true
 			}
 		}
 		p.cond.Broadcast()
 		p.mu.Unlock()
-		if delivered && w.OnDeliver != nil {
-			w.OnDeliver(cp.client, toServer, n, data)
-		}
 		if verdict == SegResetAfter {
 			cp.Reset("policy-after")
 		}
@@ -300,21 +303,24 @@ func (cp *connPair) sendNoPolicy(toServer bool, n int, data []byte, fin bool) {
 	p.lastAt = at
 	p.mu.Unlock()
 	w.Post(at, key, func() {
+		// observers see the bytes before the reader is woken (the reader may finish
+		// the whole operation before this goroutine runs again)
 		p.mu.Lock()
-		delivered := false
+		deliverable := p.err == nil && !p.rclosed && !fin
+		p.mu.Unlock()
+		if deliverable && w.OnDeliver != nil {
+			w.OnDeliver(cp.client, toServer, n, data)
+		}
+		p.mu.Lock()
 		if p.err == nil && !p.rclosed {
 			if fin {
 				p.eof = true
 			} else {
 				p.buf = append(p.buf, data...)
-				delivered = true
 			}
 		}
 		p.cond.Broadcast()
 		p.mu.Unlock()
-		if delivered && w.OnDeliver != nil {
-			w.OnDeliver(cp.client, toServer, n, data)
-		}
 	})
 }
 
